@@ -114,3 +114,107 @@ theorem search_trace (alg : Alg V A) (fuel : Nat) : ∀ (o : Oracle V A) (script
 
 end Search
 #print axioms Search.search_trace
+
+namespace Search
+open Core
+variable {V A : Type}
+
+/-- what the loop reports for an attempt of `run_trial` (fatal errors and interrupts report nothing) -/
+def outcomeOf : Attempt → Option Outcome
+  | .ret _ => some .completed
+  | .raise => some .invalid
+  | .failedTrial => some .failed
+  | .fatal => none
+  | .interrupt => none
+
+/-- the statuses reported to `end_trial`, in order -/
+def endsOf : List Ev → List Outcome
+  | [] => []
+  | .ended _ oc :: rest => oc :: endsOf rest
+  | _ :: rest => endsOf rest
+
+theorem endsOf_append (a b : List Ev) : endsOf (a ++ b) = endsOf a ++ endsOf b := by
+  induction a with
+  | nil => rfl
+  | cons e es ih => cases e <;> simp [endsOf, ih]
+
+/-- **status mapping**: the statuses reported to the oracle are exactly the images of the first `k`
+    attempts of `run_trial` (returned ⇒ COMPLETED, ordinary exception ⇒ INVALID, `FailedTrialError` ⇒
+    FAILED), in order, none skipped, none invented; a fatal error or an interrupt reports nothing -/
+theorem status_mapping (alg : Alg V A) (fuel : Nat) : ∀ (o : Oracle V A) (script : List Attempt) (acc : List Ev),
+    ∃ k, endsOf (search alg fuel o script acc).2 = endsOf acc ++ (script.take k).filterMap outcomeOf ∧
+      ∀ a ∈ script.take k, (outcomeOf a).isSome := by
+  induction fuel with
+  | zero => intro o script acc; exact ⟨0, by simp [search, endsOf_append, endsOf], by simp⟩
+  | succ fuel ih =>
+    intro o script acc
+    simp only [search]
+    have stop : ∀ (st : Oracle V A) (tail : List Ev), endsOf tail = [] →
+        ∃ k, endsOf ((st, acc ++ tail) : Oracle V A × List Ev).2 = endsOf acc ++ (script.take k).filterMap outcomeOf ∧
+          ∀ a ∈ script.take k, (outcomeOf a).isSome :=
+      fun st tail ht => ⟨0, by simp [endsOf_append, ht], by simp⟩
+    cases hr : (create alg o 0 fuel).2 with
+    | stopped => exact stop _ _ rfl
+    | idle => exact ih _ _ _
+    | ok => exact stop _ _ rfl
+    | bad => exact stop _ _ rfl
+    | abort => exact stop _ _ rfl
+    | trial id v =>
+      simp only
+      cases script with
+      | nil => exact stop _ _ rfl
+      | cons a rest =>
+        have step : ∀ (oc : Outcome) (o' : Oracle V A), outcomeOf a = some oc →
+            (∃ k, endsOf (search alg fuel o' rest (acc ++ [.start id, .ended id oc])).2 =
+                endsOf (acc ++ [.start id, .ended id oc]) ++ (rest.take k).filterMap outcomeOf ∧
+              ∀ a ∈ rest.take k, (outcomeOf a).isSome) →
+            ∃ k, endsOf (search alg fuel o' rest (acc ++ [.start id, .ended id oc])).2 =
+                endsOf acc ++ ((a :: rest).take k).filterMap outcomeOf ∧
+              ∀ b ∈ (a :: rest).take k, (outcomeOf b).isSome := by
+          intro oc o' ha ⟨k, hk, hall⟩
+          refine ⟨k + 1, ?_, ?_⟩
+          · rw [hk]; simp [endsOf_append, endsOf, ha]
+          · intro b hb
+            simp only [List.take_succ_cons, List.mem_cons] at hb
+            rcases hb with hb | hb
+            · rw [hb, ha]; rfl
+            · exact hall b hb
+        have abortCase : ∀ (oc : Outcome) (st : Oracle V A), outcomeOf a = some oc →
+            ∃ k, endsOf ((st, acc ++ [.start id, .ended id oc, .abortEv]) : Oracle V A × List Ev).2 =
+                endsOf acc ++ ((a :: rest).take k).filterMap outcomeOf ∧
+              ∀ b ∈ (a :: rest).take k, (outcomeOf b).isSome := by
+          intro oc st ha
+          exact ⟨1, by simp [endsOf_append, endsOf, ha], by intro b hb; simp at hb; rw [hb, ha]; rfl⟩
+        cases a with
+        | ret rep =>
+          simp only
+          cases he : (endT alg (update (create alg o 0 fuel).1 id rep).1 id .completed).2 with
+          | abort => exact abortCase .completed _ rfl
+          | ok => exact step .completed _ rfl (ih _ _ _)
+          | bad => exact step .completed _ rfl (ih _ _ _)
+          | idle => exact step .completed _ rfl (ih _ _ _)
+          | stopped => exact step .completed _ rfl (ih _ _ _)
+          | trial i w => exact step .completed _ rfl (ih _ _ _)
+        | raise =>
+          simp only
+          cases he : (endT alg (create alg o 0 fuel).1 id .invalid).2 with
+          | abort => exact abortCase .invalid _ rfl
+          | ok => exact step .invalid _ rfl (ih _ _ _)
+          | bad => exact step .invalid _ rfl (ih _ _ _)
+          | idle => exact step .invalid _ rfl (ih _ _ _)
+          | stopped => exact step .invalid _ rfl (ih _ _ _)
+          | trial i w => exact step .invalid _ rfl (ih _ _ _)
+        | failedTrial =>
+          simp only
+          cases he : (endT alg (create alg o 0 fuel).1 id .failed).2 with
+          | abort => exact abortCase .failed _ rfl
+          | ok => exact step .failed _ rfl (ih _ _ _)
+          | bad => exact step .failed _ rfl (ih _ _ _)
+          | idle => exact step .failed _ rfl (ih _ _ _)
+          | stopped => exact step .failed _ rfl (ih _ _ _)
+          | trial i w => exact step .failed _ rfl (ih _ _ _)
+        | fatal => exact ⟨0, by simp [endsOf_append, endsOf], by simp⟩
+        | interrupt => exact ⟨0, by simp [endsOf_append, endsOf], by simp⟩
+
+end Search
+#print axioms Search.status_mapping
